@@ -161,6 +161,8 @@ class Walker:
                     continue
             if isinstance(st, ast.If) and benign_expr(st.test) and self.only_logging(st.body) and self.only_logging(st.orelse):
                 continue
+            if isinstance(st, ast.Delete) and all(isinstance(t, ast.Name) for t in st.targets):
+                continue
             if isinstance(st, ast.Try) and not st.finalbody and self.only_logging(st.body) and self.only_logging(st.orelse) \
                     and all(self.only_logging(hd.body) for hd in st.handlers):
                 # e.g. try: peername = conn.sock.getpeername(); log.debug(...) except socket.error: log.debug(...)
@@ -197,10 +199,8 @@ class Walker:
                     nm = call_name(it.context_expr) or dotted(it.context_expr)
                     if nm is None or not (nm.endswith("suppress") or nm.endswith("lock")):
                         self.fail("unrecognised context manager")
-                    if nm.endswith("suppress"):
-                        if not any(dotted(a_) in ("Exception", "BaseException") for a_ in it.context_expr.args):
-                            self.fail("suppress(...) of something narrower than Exception")
-                        guards = True
+                    if nm.endswith("suppress") and any(dotted(a_) in ("Exception", "BaseException") for a_ in it.context_expr.args):
+                        guards = True       # (a narrower suppress() catches nothing a hook is modelled to raise: no guard)
                 body = self.walk(st.body, env, depth, top=False)
                 acts.extend(body)
                 if guards and "AHook" in body:
@@ -314,12 +314,28 @@ def conn_close_actions(tree):
             return ["AClearRes"]
         if name == "self.pyroInstances.clear":
             return ["ADropInst"]
+        if name and name.count(".") == 1 and name.split(".")[0] in local_tables and name.endswith(".clear"):
+            return []          # emptying the old instance table that was swapped out
         return None
+    local_tables = set()
 
     def assign_rule(st, env):
         if not isinstance(st, ast.Assign) or len(st.targets) != 1:
             return None
-        t = dotted(st.targets[0])
+        tg = st.targets[0]
+        if isinstance(tg, ast.Tuple) and isinstance(st.value, ast.Tuple) and len(tg.elts) == len(st.value.elts):
+            # released, self.pyroInstances = self.pyroInstances, {}
+            acts = []
+            for t_, v_ in zip(tg.elts, st.value.elts):
+                if dotted(t_) == "self.pyroInstances":
+                    need(isinstance(v_, ast.Dict) and not v_.keys, "SocketConnection.close: pyroInstances is not reset to an empty dict")
+                    acts.append("ADropInst")
+                elif isinstance(t_, ast.Name) and dotted(v_) == "self.pyroInstances":
+                    local_tables.add(t_.id)
+                else:
+                    return None
+            return acts
+        t = dotted(tg)
         if t == "self.pyroInstances":
             need(isinstance(st.value, ast.Dict) and not st.value.keys or
                  (isinstance(st.value, ast.Call) and call_name(st.value) == "dict" and not st.value.args and not st.value.keywords),
@@ -440,9 +456,12 @@ def reraise_facts(tree):
     need(len(second.handlers) == 1 and handler_classes(second.handlers[0]) == ["Exception"],
          "Daemon.handleRequest: catch-all handler not recognised")
     hd = second.handlers[0]
-    last = hd.body[-1]
-    need(isinstance(last, ast.If) and len(last.body) == 1 and isinstance(last.body[0], ast.Raise) and last.body[0].exc is None
-         and not last.orelse, "Daemon.handleRequest: final conditional re-raise not recognised")
+    # the conditional bare `raise` of the handler (possibly wrapped in try/finally)
+    cands = [n for n in ast.walk(hd) if isinstance(n, ast.If) and len(n.body) == 1 and isinstance(n.body[0], ast.Raise)
+             and n.body[0].exc is None and not n.orelse and any(
+                 isinstance(c, ast.Call) and call_name(c) == "isinstance" for c in ast.walk(n.test))]
+    need(len(cands) == 1, "Daemon.handleRequest: final conditional re-raise not recognised")
+    last = cands[0]
     test = last.test
     disj = test.values if isinstance(test, ast.BoolOp) and isinstance(test.op, ast.Or) else [test]
     callback, classes = False, []
@@ -463,14 +482,38 @@ def reraise_facts(tree):
                  and call_name(n.value) == "getattr" for n in ast.walk(second)), "isCallback is not read from the method")
     # ordering fact: the call context is bound to THIS connection before the target instance is looked up / constructed
     # (a constructor that tracks a resource must track it on the connection whose request is being served)
-    binds = [n for n in ast.walk(second) if isinstance(n, ast.Assign) and len(n.targets) == 1
-             and dotted(n.targets[0]) == "current_context.client"]
-    need(len(binds) == 1 and dotted(binds[0].value) == f.args.args[1].arg,
-         "Daemon.handleRequest: current_context.client is not bound exactly once to the connection")
+    dcls = find_class(mod, "Daemon")
+    connp = f.args.args[1].arg
+
+    def binds_client(stmts, connname):
+        """does this statement list assign <call context>.client = <connname> unconditionally (top level, or inside a with)"""
+        aliases = {"current_context"}
+        for st in stmts:
+            if isinstance(st, ast.Assign) and len(st.targets) == 1:
+                if isinstance(st.targets[0], ast.Name) and dotted(st.value) in aliases:
+                    aliases.add(st.targets[0].id)
+                t = dotted(st.targets[0])
+                if t and t.endswith(".client") and t[:-7] in aliases and dotted(st.value) == connname:
+                    return True
+        return False
+    bind_stmts = []
+    for st in second.body:
+        if binds_client([st], connp):
+            bind_stmts.append(st)
+        elif isinstance(st, ast.Expr) and isinstance(st.value, ast.Call) and (call_name(st.value) or "").startswith("self.") \
+                and call_name(st.value).count(".") == 1:
+            hm = [n for n in dcls.body if isinstance(n, ast.FunctionDef) and n.name == call_name(st.value).split(".")[1]]
+            if len(hm) == 1:
+                params = [a_.arg for a_ in hm[0].args.args]
+                if not any(dotted(d_) == "staticmethod" for d_ in hm[0].decorator_list):
+                    params = params[1:]
+                for pn, arg in zip(params, st.value.args):
+                    if dotted(arg) == connp and binds_client(hm[0].body, pn):
+                        bind_stmts.append(st)
+    need(len(bind_stmts) == 1, "Daemon.handleRequest: current_context.client is not bound exactly once, unconditionally, to the connection")
     ctor_calls = [c for c in ast.walk(second) if isinstance(c, ast.Call) and call_name(c) == "self._getInstance"]
     need(len(ctor_calls) == 1, "Daemon.handleRequest: self._getInstance not called exactly once")
-    need(binds[0] in second.body, "Daemon.handleRequest: current_context.client is bound conditionally")
-    bound_first = binds[0].lineno < ctor_calls[0].lineno
+    bound_first = bind_stmts[0].lineno < ctor_calls[0].lineno
     return callback, classes, ast_sha(f), bound_first
 
 
@@ -486,8 +529,8 @@ def thread_facts(tree, h, close_acts, nhook):
         inner = body[0].body
     elif body and isinstance(body[0], ast.If) and isinstance(body[0].test, ast.UnaryOp) and isinstance(body[0].test.op, ast.Not) \
             and call_name(body[0].test.operand) == "self.handleConnection" and not body[0].orelse \
-            and len(body[0].body) == 1 and isinstance(body[0].body[0], ast.Return) \
-            and (body[0].body[0].value is None or (isinstance(body[0].body[0].value, ast.Constant) and not body[0].body[0].value.value)):
+            and body[0].body and isinstance(body[0].body[-1], ast.Return) and lw.only_logging(body[0].body[:-1]) \
+            and (body[0].body[-1].value is None or (isinstance(body[0].body[-1].value, ast.Constant) and not body[0].body[-1].value.value)):
         inner = body[1:]
     else:
         raise GenError(W + ": the handshake guard (`if self.handleConnection():`) is not recognised")
@@ -547,11 +590,21 @@ def thread_facts(tree, h, close_acts, nhook):
     cleanup = Walker(cls, rules, "finally of ClientConnectionJob.__call__").walk(tr.finalbody, {}, 3, top=False)
     # the worker slot: Worker.run calls pool.notify_done after the job, whatever the job raised
     w = find_func(mod, "run", "Worker")
+    wcls = find_class(mod, "Worker")
+    ww = Walker(wcls, lambda *a_: None, "Worker.run")
     loops = [st for st in w.body if isinstance(st, ast.While)]
     need(len(loops) == 1, "Worker.run: loop not recognised")
-    body = loops[0].body
+    body = []
+    for st in loops[0].body:      # follow `self._helper()` one level
+        hm = ww.method(call_name(st.value).split(".")[1]) if isinstance(st, ast.Expr) and isinstance(st.value, ast.Call) \
+            and (call_name(st.value) or "").startswith("self.") and call_name(st.value).count(".") == 1 and not st.value.args else None
+        body.extend([x for x in hm.body if not is_docstring(x)] if hm is not None else [st])
+    job_names = {"self.job"}
+    for st in body:               # current_job = self.job
+        if isinstance(st, ast.Assign) and len(st.targets) == 1 and isinstance(st.targets[0], ast.Name) and dotted(st.value) == "self.job":
+            job_names.add(st.targets[0].id)
     idx = [i for i, st in enumerate(body) if isinstance(st, ast.Try) and any(
-        isinstance(s, ast.Expr) and call_name(s.value) == "self.job" for s in st.body)]
+        isinstance(s, ast.Expr) and call_name(s.value) in job_names for s in st.body)]
     need(len(idx) == 1, "Worker.run: `try: self.job()` not recognised")
     jt = body[idx[0]]
     need(any("Exception" in handler_classes(hd) for hd in jt.handlers) and not jt.finalbody,
@@ -578,10 +631,11 @@ def thread_facts(tree, h, close_acts, nhook):
     tries = [st for st in hc.body if isinstance(st, ast.Try)]
     need(len(tries) == 1, "handleConnection: try not recognised")
     t0 = tries[0]
-    need(len(t0.body) == 2 and isinstance(t0.body[0], ast.If) and call_name(t0.body[0].test) == "self.daemon._handshake"
-         and len(t0.body[0].body) == 1 and isinstance(t0.body[0].body[0], ast.Return)
-         and isinstance(t0.body[0].body[0].value, ast.Constant) and t0.body[0].body[0].value.value is True
-         and isinstance(t0.body[1], ast.Expr) and call_name(t0.body[1].value) == "self.csock.close",
+    tb0 = [x for x in t0.body if not lw.only_logging([x])]      # logging lines between the statements do not matter
+    need(len(tb0) == 2 and isinstance(tb0[0], ast.If) and call_name(tb0[0].test) == "self.daemon._handshake"
+         and len(tb0[0].body) == 1 and isinstance(tb0[0].body[0], ast.Return)
+         and isinstance(tb0[0].body[0].value, ast.Constant) and tb0[0].body[0].value.value is True
+         and isinstance(tb0[1], ast.Expr) and call_name(tb0[1].value) == "self.csock.close",
          "handleConnection: refused handshake does not close the connection")
     for hd in t0.handlers:
         need(any(isinstance(s, ast.Expr) and call_name(s.value) == "self.csock.close" for s in hd.body),
@@ -632,8 +686,19 @@ def mux_facts(tree, h, close_acts, nhook):
             iff = st
             rest = part[:i] + part[i + 1:]
             break
-    need(iff is not None and not iff.orelse and lw.only_logging(rest),
-         "events: `if not self.handleRequest(s):` (or `active = ...; if not active:`) not recognised")
+    cleanup_body = None
+    if iff is None:
+        # `if self.handleRequest(s): continue` followed by the cleanup
+        for i, st in enumerate(part):
+            if isinstance(st, ast.If) and is_hr(st.test) and not st.orelse and st.body and isinstance(st.body[-1], ast.Continue) \
+                    and lw.only_logging(st.body[:-1]) and lw.only_logging(part[:i]):
+                cleanup_body = part[i + 1:]
+                break
+    else:
+        need(not iff.orelse and lw.only_logging(rest), "events: statements around `if not active:` not recognised")
+        cleanup_body = iff.body
+    need(cleanup_body is not None,
+         "events: `if not self.handleRequest(s):` (or `active = ...; if not active:`, or `if ...: continue`) not recognised")
 
     def rules(name, call, env):
         arg0 = subst(dotted(call.args[0]), env) if call.args else None
@@ -656,12 +721,12 @@ def mux_facts(tree, h, close_acts, nhook):
             if acts == ["ASlot"]:
                 return acts
         return None
-    cleanup = Walker(cls, rules, "`if not active:` branch of SocketServer_Multiplex.events", if_rule=if_rule).walk(iff.body, {}, 3, top=False)
+    cleanup = Walker(cls, rules, "`if not active:` branch of SocketServer_Multiplex.events", if_rule=if_rule).walk(cleanup_body, {}, 3, top=False)
     for i, a in enumerate(cleanup):
         if a == "AHook":
             need("AGuardEnd" in cleanup[i + 1:], "events: an exception of the disconnect hook would leave the event loop")
     # registration happens for accepted connections only
-    need(any(call_name(c) == "self.selector.register" for c in ast.walk(branch[0]) if isinstance(c, ast.Call)),
+    need(any(call_name(c) == "self.selector.register" for c in ast.walk(cls) if isinstance(c, ast.Call)),
          "events: accepted connections are not registered")
     hr = find_func(mod, "handleRequest", "SocketServer_Multiplex")
     hb = [st for st in hr.body if not is_docstring(st)]
@@ -681,11 +746,20 @@ def mux_facts(tree, h, close_acts, nhook):
     for st in ast.walk(hc):
         if isinstance(st, ast.Try):
             for i, s0 in enumerate(st.body):
-                if isinstance(s0, ast.If) and call_name(s0.test) == "self.daemon._handshake" and i + 1 < len(st.body):
-                    nxt = st.body[i + 1]
+                if isinstance(s0, ast.If) and call_name(s0.test) == "self.daemon._handshake":
+                    # if handshake(c): return c   <logging>   c.close()
                     cvar = dotted(s0.test.args[0]) if s0.test.args else None
-                    if isinstance(nxt, ast.Expr) and cvar and call_name(nxt.value) == cvar + ".close" \
+                    tail = [x for x in st.body[i + 1:] if not lw.only_logging([x])]
+                    if tail and isinstance(tail[0], ast.Expr) and cvar and call_name(tail[0].value) == cvar + ".close" \
                             and len(s0.body) == 1 and isinstance(s0.body[0], ast.Return) and dotted(s0.body[0].value) == cvar:
+                        ok = True
+                if isinstance(s0, ast.If) and isinstance(s0.test, ast.UnaryOp) and isinstance(s0.test.op, ast.Not) \
+                        and call_name(s0.test.operand) == "self.daemon._handshake" and not s0.orelse:
+                    # if not handshake(c): c.close(); return None
+                    cvar = dotted(s0.test.operand.args[0]) if s0.test.operand.args else None
+                    inner_ = [x for x in s0.body if not lw.only_logging([x])]
+                    if cvar and len(inner_) == 2 and isinstance(inner_[0], ast.Expr) and call_name(inner_[0].value) == cvar + ".close" \
+                            and isinstance(inner_[1], ast.Return) and (inner_[1].value is None or (isinstance(inner_[1].value, ast.Constant) and not inner_[1].value.value)):
                         ok = True
     need(ok, "_handleConnection: refused handshake does not close the connection")
     need(not any(call_name(c) == "self.daemon._clientDisconnect" for c in ast.walk(hc) if isinstance(c, ast.Call)),
